@@ -497,6 +497,7 @@ type FSMOpts struct {
 	Opaque        bool // write 0-byte snapshots
 	ApplyPreUs    int  // random delay before taking the FSM lock in Apply (max, microseconds)
 	ApplyInUs     int  // random delay inside the critical section
+	ApplyFixUs    int  // fixed delay inside the critical section (directed windows)
 	SnapUs        int  // delay inside Snapshot (inside the critical section)
 	SnapPreUs     int
 	RestoreUs     int
@@ -560,6 +561,9 @@ func (f *FSM) Apply(op *raft.Operation) interface{} {
 	f.sleep(f.opts.ApplyPreUs)
 	f.mu.Lock()
 	f.sleep(f.opts.ApplyInUs)
+	if f.opts.ApplyFixUs > 0 {
+		time.Sleep(time.Duration(f.opts.ApplyFixUs) * time.Microsecond)
+	}
 	h := mon.HashBytes(op.Bytes)
 	f.cnt++
 	f.chn = mon.FsmStep(f.chn, op.LogIndex, op.LogTerm, h)
